@@ -12,4 +12,5 @@ cWorlds == {W1, W2, W3, W4, W5}
 cExtsDefault == <<"", ".jet">>
 cExtsNoEmpty == <<".jet">>
 cExtsRev == <<".jet", "">>
+cExtsLong == <<".a", ".b", ".c", ".d", ".jet">>     \* more candidates than the default list has entries
 =============================================================================
